@@ -296,6 +296,9 @@ type servers struct {
 	// disposer is given every response a server has finished with.
 	disposer *scribblingDisposer
 
+	// bound, if not nil, is the manager of the interface listeners.
+	bound *bound
+
 	// dcCert is the certificate of the DNSCrypt server, which a client
 	// normally fetches with a plain TXT query.
 	dcCert     *dnscrypt.Cert
@@ -314,6 +317,11 @@ type serverOpts struct {
 
 	// setB starts the second group of servers (fresh twin).
 	setB bool
+
+	// bound makes the plain-DNS and DoT servers of the first group listen
+	// through interface listeners (internal/bindtodevice) with channels of
+	// this size.
+	bound int
 }
 
 func startServers(s *kernel.Sim, n *simnet.Net, p *pipeline, o serverOpts) (sv *servers) {
@@ -346,16 +354,29 @@ func startServers(s *kernel.Sim, n *simnet.Net, p *pipeline, o serverOpts) (sv *
 		}
 	}
 
-	sv.all = append(sv.all, dnsserver.NewServerDNS(dnsConf("dns", addrDNS)))
-	if o.second {
-		sv.all = append(sv.all, dnsserver.NewServerDNS(dnsConf("dns2", addrDNS2)))
+	// bind returns the configuration of a server that listens either on its
+	// own sockets or through an interface listener.
+	bind := func(c dnsserver.ConfigDNS, port uint16, subnet string) dnsserver.ConfigDNS {
+		if sv.bound != nil {
+			c.ListenConfig, c.Addr = sv.bound.listenConfig(port, subnet)
+		}
+
+		return c
+	}
+	if o.bound > 0 {
+		sv.bound = startBound(s, n, o.bound)
+	}
+
+	sv.all = append(sv.all, dnsserver.NewServerDNS(bind(dnsConf("dns", addrDNS), 53, boundDNSSubnet)))
+	if o.second || sv.bound != nil {
+		sv.all = append(sv.all, dnsserver.NewServerDNS(bind(dnsConf("dns2", addrDNS2), 53, boundDNS2Subnet)))
 	}
 
 	tlsConf := &tls.Config{Certificates: []tls.Certificate{testCert()}, MinVersion: tls.VersionTLS12}
 	if o.dot {
 		sv.all = append(sv.all, dnsserver.NewServerTLS(dnsserver.ConfigTLS{
 			TLSConfig: tlsConf.Clone(),
-			ConfigDNS: dnsConf("dot", addrDoT),
+			ConfigDNS: bind(dnsConf("dot", addrDoT), 853, boundDNSSubnet),
 		}))
 	}
 
@@ -422,6 +443,10 @@ func startServers(s *kernel.Sim, n *simnet.Net, p *pipeline, o serverOpts) (sv *
 		sv.all = append(sv.all, dnsserver.NewServerQUIC(dnsserver.ConfigQUIC{ConfigBase: base("doqB", addrDoQB), TLSConfig: qc}))
 	}
 
+	if sv.bound != nil {
+		sv.bound.start()
+	}
+
 	for _, srv := range sv.all {
 		err := srv.Start(context.Background())
 		if err != nil {
@@ -437,6 +462,10 @@ func (sv *servers) shutdown() {
 		ctx, cancel := context.WithTimeout(context.Background(), 5*time.Second)
 		_ = srv.Shutdown(ctx)
 		cancel()
+	}
+
+	if sv.bound != nil {
+		sv.bound.shutdown()
 	}
 }
 
@@ -509,7 +538,6 @@ func endOf(err error) string {
 	return "err:" + s
 }
 
-
 // ---- DNSCrypt client ----
 
 // dcClient seals and opens DNSCrypt messages for one client key pair.
@@ -548,7 +576,6 @@ func (c *dcClient) open(b []byte) (raw []byte, err error) {
 	return r.Decrypt(b, c.shared)
 }
 
-
 // h3Transport returns an HTTP/3 client transport whose QUIC connections run
 // over a socket of the simulated network, and a function that releases it.
 func h3Transport(n *simnet.Net, ip netip.Addr, sni string) (rt *http3.Transport, done func()) {
@@ -571,7 +598,6 @@ func h3Transport(n *simnet.Net, ip netip.Addr, sni string) (rt *http3.Transport,
 		_ = pc.Close()
 	}
 }
-
 
 // scribblingDisposer is the servers' disposer: a response handed to it is the
 // disposer's to reuse, so it overwrites it at once; a server that still uses
